@@ -238,6 +238,15 @@ def check_property(prop, tier):
     if prop in ("C12", "C15"):
         fam = {"builtins_binary": "binary_", "builtins_integer": "integer_", "builtins_vector": "vector_", "rope": "binary_", "heap": "binary_"}
         broken = [u for u in units if u in fam and any(("does not compile" in x or x.startswith("extract")) for x in results[u].infra)]
+        # a single function that lost its anchors (a new loop or closure the contract file does not know) leaves
+        # that function - and every unit that imports its contract - undecided: same stand-in
+        lost = {u: [ob["qual"] for ob in results[u].obligations.values() if ob.get("kind") == "fn" and ob.get("status") == "undecided"] for u in units if u in fam}
+        for u, qs in lost.items():
+            sel = spec["units"][u][0]
+            qs = [q for q in qs if sel is None or q in sel]
+            if qs and u not in broken:
+                broken.append(u)
+                results[u].infra.append("lost anchor in " + ", ".join(qs))
         if broken:
             try:
                 from . import cesearch
